@@ -61,7 +61,7 @@ def scenario(draw):
         ti = draw(st.integers(0, nt - 1))
         n = draw(st.integers(1, 12))
         procs.append({"topic": ti, "start": draw(dy), "delays": [draw(dy) for _ in range(n)],
-                      "reuse": draw(st.booleans()), "wrong_at": sorted(set(draw(st.lists(st.integers(0, n - 1), max_size=2))))})
+                      "reuse": draw(st.booleans()), "scribble": draw(st.booleans()), "wrong_at": sorted(set(draw(st.lists(st.integers(0, n - 1), max_size=2))))})
     updates = []
     for _ in range(draw(st.integers(0, 4))):
         if nodes:
@@ -126,7 +126,7 @@ def run_scenario(sc):
     for rl in sc.get("relays", []):
         add_relay(rl["src"], rl["dst"])
 
-    def do_publish(ti, msg_obj=None, wrong=False):
+    def do_publish(ti, msg_obj=None, wrong=False, scribble=False):
         """publish one message with a fresh sequence number; checks synchronous exactly-once delivery"""
         before = {sid: len(received[sid]) for sid in received}
         if wrong:
@@ -168,6 +168,9 @@ def run_scenario(sc):
                                 % (int(seq), ti, core.now, sid, grew, want), scenario=sc)
             if want and received[sid][-1][0] != seq:
                 raise Violation("subscriber %s received message #%g instead of #%d" % (sid, received[sid][-1][0], int(seq)), scenario=sc)
+        if scribble and msg_obj is not None:
+            # the publisher goes on filling its (reused) message object for the next publication: nobody may see this value
+            m.data["time"] = -(seq + 0.5)
 
     # pre-run phase (before the logger locks the registry)
     for a in sc["pre"]:
@@ -224,7 +227,7 @@ def run_scenario(sc):
         if pr["start"] > 0:
             yield simpy.Timeout(core, pr["start"])
         for k, d in enumerate(pr["delays"]):
-            do_publish(ti, obj, wrong=False)
+            do_publish(ti, obj, wrong=False, scribble=pr.get("scribble", False))
             if k in pr["wrong_at"]:
                 do_publish(ti, wrong=True)
             if d > 0:
@@ -336,6 +339,8 @@ def bus_classify(sc):
         out.append("wrong-type")
     if any(pr["reuse"] for pr in sc["procs"]):
         out.append("reused-msg")
+    if any(pr["reuse"] and pr.get("scribble") for pr in sc["procs"]):
+        out.append("reused-msg-written-after-publish")
     if any("logger_dt" in u for u in sc["updates"]):
         out.append("logger-period-update")
     if any(not nd["follows"] for nd in sc["nodes"]):
@@ -657,7 +662,7 @@ def build(tier):
             "estimator invariants are stated in message time (stamps); the minimum period in force is the value last broadcast "
             "before the later of two successive corrections",
         ],
-        "require_classes": {"bus/scenario": ["logger", "late-subscriber-after-publish", "wrong-type", "reused-msg",
+        "require_classes": {"bus/scenario": ["logger", "late-subscriber-after-publish", "wrong-type", "reused-msg", "reused-msg-written-after-publish",
                                              "logger-period-update", "non-following-node", "relay"],
                             "estimator/scheduling": ["non-positive-dt", "too-early-correction-opportunity", "dt_min-update",
                                                      "accel>mag", "accel<mag"]},
